@@ -575,6 +575,112 @@ func hsRandom(prop string, seed uint64, n int, launches []string) []*k.Spec {
 	})
 }
 
+// system calls that can fail for want of a resource, with the choice key that
+// decides the failure of one particular call
+var c05Resource = []struct{ name, fault, key string }{
+	{"fork", "spawn.fail", "spawnfail#0"},
+	{"plugin-pipe-1", "pipe.emfile", "emfile/pipe#0"},
+	{"plugin-pipe-2", "pipe.emfile", "emfile/pipe#1"},
+	{"mkdirtemp", "fs.enospc", "enospc/mkdirtemp#0"},
+	{"createtemp", "fs.enospc", "enospc/createtemp#0"},
+	{"listen", "listen.fail", "listenfail/plugin#0"},
+}
+
+// runC05Resource: a real, well-behaved plugin; one system call on the way to
+// a running plugin fails.
+func runC05Resource(r *h.Run) {
+	w := r.W
+	c := r.ConfFromParams()
+	c.Timeout = 10 * time.Second
+	ctx := fmt.Sprintf("resource=%s proto=%s launch=%s", r.Spec.P("resource", ""), c.Proto, c.Launch)
+	before := map[string]bool{}
+	for _, p := range w.Paths() {
+		before[p] = true
+	}
+	r.InstallPlugin(&c)
+	cl := r.NewClient(c)
+	o := r.Do("Start", 60*time.Second, func() (any, error) { return cl.Start() })
+	if o.Hung {
+		r.Violate("hang", "op=Start "+ctx, fmt.Sprintf("Start still outstanding after %v\n%s", o.Took, r.HostStacks("goplugin")))
+		return
+	}
+	fired := ""
+	for _, f := range []string{"spawn.fail", "pipe.emfile", "fs.enospc", "listen.fail"} {
+		if w.FaultCount(f) > 0 {
+			fired += f + " "
+		}
+	}
+	proc := w.ProcByName("plugin")
+	if o.Err == nil {
+		w.Probe("resource.start-ok")
+		if fired != "" && r.Spec.P("resource", "") != "random" {
+			// (a failed call the start can do without is possible in principle; none is known)
+			w.Probe("resource.start-ok-despite-fault")
+		}
+		do := r.Do("use", 60*time.Second, func() (any, error) {
+			cp, err := cl.Client()
+			if err != nil {
+				return nil, err
+			}
+			raw, err := cp.Dispense(h.PluginName)
+			if err != nil {
+				return nil, err
+			}
+			return raw.(plugins.Cmd).Do("tag", "")
+		})
+		if do.Hung {
+			r.Violate("hang", "op=use "+ctx, r.HostStacks("goplugin"))
+			return
+		}
+		if do.Err != nil && fired == "" {
+			r.Violate("setup", "fault-free start unusable "+ctx, do.Err.Error())
+		}
+	} else {
+		w.Probe("resource.start-err")
+		if fired == "" && w.InjectedTotal() < time.Second {
+			r.Violate("setup", "start failed without a fault "+ctx, o.Err.Error()+"\n"+r.HLog.String())
+		}
+		if proc != nil {
+			select {
+			case <-proc.ExitChan():
+			case <-time.After(time.Second):
+			}
+			if proc.Alive() {
+				r.Violate("process-left-behind", ctx+" cause="+errClass(o.Err), fmt.Sprintf("Start failed with %q but the plugin process is still alive 1s later", firstLine(o.Err.Error())))
+			}
+		}
+	}
+	ko := r.Do("Kill", 150*time.Second, func() (any, error) { cl.Kill(); return nil, nil })
+	if ko.Hung {
+		r.Violate("hang", "op=Kill after-start="+okErr(o.Err)+" "+ctx, fmt.Sprintf("Kill still outstanding after %v\n%s", ko.Took, r.HostStacks("goplugin")))
+		return
+	}
+	if o.Err != nil && ko.Took > 5*time.Second+ko.Inject {
+		r.Violate("slow-kill", ctx, fmt.Sprintf("Kill after a failed start took %v", ko.Took))
+	}
+	time.Sleep(3 * time.Second)
+	if proc != nil && proc.Alive() {
+		r.Violate("process-left-behind", ctx+" after-kill", "plugin process alive after Kill")
+	}
+	if c.Launch == "runner" {
+		for _, p := range w.Paths() {
+			if !before[p] && strings.Contains(p, "plugin-dir") {
+				if proc == nil {
+					// The process was never launched (fork failed, or the directory
+					// could not be prepared): the property speaks of starts that fail
+					// AFTER the launch. (Observation outside the listed properties:
+					// in that case Kill returns early - runner.ID() is empty - and
+					// the directory stays.)
+					w.Probe("observation.dir-left-when-never-launched")
+					break
+				}
+				r.Violate("dir-left-behind", ctx, "socket directory "+p+" still exists after Kill")
+				break
+			}
+		}
+	}
+}
+
 func init() {
 	Register(&Prop{ID: "C01",
 		Meta: Meta{Level: "exploration",
@@ -599,7 +705,7 @@ func init() {
 	})
 	Register(&Prop{ID: "C05",
 		Meta: Meta{Level: "fault_enumeration",
-			Rule:       "every way Start can fail after launch, enumerated: each handshake field invalid in turn (7 fields x classes), malformed shapes, silence until timeout, partial line without newline, exit before any output (codes 0/2), stdout closed while alive, both pipes closed, disallowed protocol, bad certificate, unsupported multiplexing, line arriving after the timeout - x launch method (command, custom runner) x 8 client configurations; plus seeded timing/chunking/schedule noise; oracle: when Start returns an error the launched process is dead within 1s simulated, a later Kill returns within 5s and, with a custom runner, the plugin-dir* directory is gone",
+			Rule:       "every way Start can fail after launch, enumerated (plus, group `resource`: a well-behaved plugin and one failing system call on the way - fork, the plugin's pipes, MkdirTemp, CreateTemp, listen - enumerated and seeded): each handshake field invalid in turn (7 fields x classes), malformed shapes, silence until timeout, partial line without newline, exit before any output (codes 0/2), stdout closed while alive, both pipes closed, disallowed protocol, bad certificate, unsupported multiplexing, line arriving after the timeout - x launch method (command, custom runner) x 8 client configurations; plus seeded timing/chunking/schedule noise; oracle: when Start returns an error the launched process is dead within 1s simulated, a later Kill returns within 5s and, with a custom runner, the plugin-dir* directory is gone",
 			Exhaustive: "the failure-cause x launch-method x configuration matrix described in rule"},
 		Plan: func(tier string, seed uint64, stage int, prev []*h.Result) []*k.Spec {
 			if stage > 0 {
@@ -610,12 +716,47 @@ func init() {
 				return hsRandom("C05", seed, 6, launches)
 			}
 			out := hsSpecs("C05", seed, hsConfs(tier == "thorough"), launches)
+			// a start that fails for want of a resource: process creation, pipes,
+			// temporary directories and files, the plugin's listener - each
+			// failing system call in turn, on either side
+			for _, proto := range []string{"netrpc", "grpc"} {
+				for _, l := range launches {
+					for _, rf := range c05Resource {
+						s := sp("C05", fmt.Sprintf("resource/%s/%s/%s", proto, l, rf.name), seed, P("resource", rf.name, "proto", proto, "launch", l))
+						s.Faults = rf.fault
+						s.Overrides = map[string]int64{rf.key: 1}
+						out = append(out, s)
+					}
+				}
+			}
 			n := 800
 			if tier == "thorough" {
 				n = 100000
 			}
-			return append(out, hsRandom("C05", seed^0x55, n, launches)...)
+			out = append(out, hsRandom("C05", seed^0x55, n, launches)...)
+			nr := 200
+			if tier == "thorough" {
+				nr = 30000
+			}
+			return append(out, seeded("C05", seed^0x77, nr, func(i int, sd uint64) *k.Spec {
+				s := &k.Spec{Seed: sd, Params: P("resource", "random", "proto", []string{"netrpc", "grpc"}[k.H(sd, "proto", 0)%2], "launch", launches[k.H(sd, "launch", 0)%2])}
+				s.Faults = "spawn.fail,pipe.emfile,fs.enospc,listen.fail"
+				s.Case = fmt.Sprintf("resource-seeded/%d", i)
+				if k.H(sd, "noise", 0)%2 == 0 {
+					swarm(s, "client.go:Client.Start,cmd_runner.go,server.go:Serve")
+					if s.DelayClass == "big" {
+						s.DelayClass = "mid"
+					}
+				}
+				return s
+			})...)
 		},
-		Run: func(r *h.Run) { runHandshake(r, "C05") },
+		Run: func(r *h.Run) {
+			if r.Spec.P("resource", "") != "" {
+				runC05Resource(r)
+				return
+			}
+			runHandshake(r, "C05")
+		},
 	})
 }
